@@ -9,7 +9,7 @@ use crate::util::json::Json;
 use crate::util::rng::{stream_byte, Rng};
 use crate::util::run::Violation;
 use smoltcp::iface::SocketHandle;
-use smoltcp::socket::tcp;
+use smoltcp::socket::{tcp, udp};
 use smoltcp::time::Duration;
 use smoltcp::wire::{IpAddress, IpCidr, IpEndpoint, Ipv4Address, Ipv6Address};
 use std::cell::Cell;
@@ -414,7 +414,18 @@ impl TcpSim {
                 s.set_tsval_generator(Some(tsgen));
             }
             s.set_keep_alive(e.keep_alive_ms.map(Duration::from_millis));
+            // in half of the cases the socket set has a hole in front of the TCP socket (a socket
+            // that was added earlier and removed again)
+            let hole = if e.seed & 4 != 0 {
+                let mk = || udp::PacketBuffer::new(vec![udp::PacketMetadata::EMPTY; 1], vec![0u8; 16]);
+                Some(hosts[i].sockets.add(udp::Socket::new(mk(), mk())))
+            } else {
+                None
+            };
             handles.push(hosts[i].sockets.add(s));
+            if let Some(hd) = hole {
+                let _ = hosts[i].sockets.remove(hd);
+            }
         }
         let handles = [handles[0], handles[1]];
         // endpoint 1 listens, endpoint 0 connects
